@@ -164,7 +164,9 @@ SimRunClauses ==
 
 \* comparison with a reference run of the same case (args.cmp = its index, args.cmpProp = owner)
 CmpClauses ==
-  IF Run.args.cmp = 0 THEN <<>>
+  \* (nothing to compare with when the reference run itself died - e.g. the known crash on nested
+  \* products, which C05 / C13 judge)
+  IF Run.args.cmp = 0 \/ Case.runs[Run.args.cmp].ret # "ok" THEN <<>>
   ELSE LET ref == Case.runs[Run.args.cmp].final
        IN On(Run.args.cmpProp,
              << <<Run.args.cmpProp \o ".H.same-result-" \o Run.args.cmpWhat,
